@@ -69,6 +69,14 @@ func (t Templates) ServeHTTP(w http.ResponseWriter, r *http.Request) (int, error
 
 		// pass request up the chain to let another middleware provide us the template
 		code, err := t.Next.ServeHTTP(rb, r)
+		if rb.Buffered() && code == 0 && err != nil {
+			// the next handler wrote a response (which we hold in the buffer)
+			// before it failed: pass that response on unrendered, not nothing
+			rb.CopyHeader()
+			rb.StatusCodeWriter(w).WriteHeader(0)
+			_, _ = w.Write(rb.Buffer.Bytes())
+			return code, err
+		}
 		if !rb.Buffered() || code >= 300 || err != nil {
 			return code, err
 		}
